@@ -5,10 +5,6 @@ set_option linter.unusedSimpArgs false
 namespace HailVerif.EngineLexer
 open HailVerif.TypeStr HailVerif.Generated
 
-/-- code points whose `unicode_escape` form uses only escapes the engine admits: `\t \n \r`, printable ASCII (with `\\` and
-the backtick escape), and `\uXXXX` for U+0100–U+FFFF -/
-def EscOK (c : Nat) : Prop := c = 9 ∨ c = 10 ∨ c = 13 ∨ (32 ≤ c ∧ c < 127) ∨ (256 ≤ c ∧ c < 65536)
-
 theorem hex4Val_hex4 (c : Nat) (h : c < 65536) (X : List Nat) : hex4Val (hex4 c ++ X) = some (c, X) := by
   have hd : ∀ n, hexVal (hexDigit (n % 16)) = some (n % 16) := fun n => hexVal_hexDigit _ (Nat.mod_lt _ (by decide))
   simp only [hex4, List.cons_append, List.nil_append, hex4Val, hd]
@@ -29,127 +25,432 @@ theorem quotedBody_pair (d : Nat) (X : List Nat) (h : d ∈ IRLexer.escapeChars)
     quotedBody 96 (92 :: d :: X) = (quotedBody 96 X).map fun p => (92 :: d :: p.1, p.2) := by
   simp [quotedBody, h]
 
-theorem quotedBody_char (c : Nat) (hc : EscOK c) (x : Nat) (X : List Nat) :
-    quotedBody 96 (escBodyChar c ++ x :: X) = (quotedBody 96 (x :: X)).map fun p => (escBodyChar c ++ p.1, p.2) := by
-  have hd : ∀ n, hexDigit (n % 16) ≠ 92 ∧ hexDigit (n % 16) ≠ 96 ∧ hexDigit (n % 16) ≠ 10 :=
-    fun n => hexDigit_ne _ (Nat.mod_lt _ (by decide))
-  unfold escBodyChar unicodeEscapeChar
-  split
-  · simp only [replaceBacktick, List.flatMap_cons, List.flatMap_nil]
-    simp [quotedBody_pair _ _ (by decide : 116 ∈ IRLexer.escapeChars)]
-  split
-  · simp only [replaceBacktick, List.flatMap_cons, List.flatMap_nil]
-    simp [quotedBody_pair _ _ (by decide : 110 ∈ IRLexer.escapeChars)]
-  split
-  · simp only [replaceBacktick, List.flatMap_cons, List.flatMap_nil]
-    simp [quotedBody_pair _ _ (by decide : 114 ∈ IRLexer.escapeChars)]
-  split
-  · simp only [replaceBacktick, List.flatMap_cons, List.flatMap_nil]
-    simp [quotedBody_pair _ _ (by decide : 92 ∈ IRLexer.escapeChars)]
-  split
-  · rename_i h1 h2 h3 h4 h5
-    simp only [Bool.or_eq_true, Bool.and_eq_true, decide_eq_true_eq] at h5
-    unfold EscOK at hc; omega
-  split
-  · rename_i h1 h2 h3 h4 h5 h6
-    by_cases h96 : c = 96
-    · subst h96
-      simp only [replaceBacktick, List.flatMap_cons, List.flatMap_nil]
-      simp [quotedBody_pair _ _ (by decide : 96 ∈ IRLexer.escapeChars)]
-    · simp [replaceBacktick, h96, quotedBody_plain, h4]
-  split
-  · have hrb : replaceBacktick (92 :: 117 :: hex4 c) = 92 :: 117 :: hex4 c := by
-      simp [replaceBacktick, hex4, (hd _).2.1]
-    rw [hrb]
-    simp only [hex4, List.cons_append, List.nil_append, List.append_nil]
-    rw [quotedBody_pair _ _ (by decide : 117 ∈ IRLexer.escapeChars),
-      quotedBody_plain _ _ _ (hd _).2.1 (hd _).1, quotedBody_plain _ _ _ (hd _).2.1 (hd _).1,
-      quotedBody_plain _ _ _ (hd _).2.1 (hd _).1, quotedBody_plain _ _ _ (hd _).2.1 (hd _).1]
-    simp [Option.map_map, Function.comp_def]
-  · unfold EscOK at hc; omega
+/-! ## the text between the backticks as a sequence of tokens the engine admits
 
-theorem quotedBody_body (s : Str) (hs : ∀ c ∈ s, EscOK c) (rest : List Nat) :
-    quotedBody 96 (replaceBacktick (unicodeEscape s) ++ 96 :: rest) = some (replaceBacktick (unicodeEscape s), rest) := by
-  induction s with
-  | nil => cases rest <;> simp [unicodeEscape, replaceBacktick, quotedBody]
-  | cons c s ih =>
-    rw [escBody_cons, List.append_assoc]
-    cases hX : replaceBacktick (unicodeEscape s) ++ 96 :: rest with
+Both Python escapers (`escape_parsable`, `escape_str(…, backticked=True)`) write, per UTF-16 code unit of the name, one of:
+the character itself, a two-character escape of `StringEscapeUtils.unescapeString`'s table, or `\uXXXX`. -/
+
+inductive Tok where
+  | plain (p : Nat)
+  | simple (e v : Nat)
+  | uni (a b c d v : Nat)
+
+def Tok.text : Tok → List Nat
+  | .plain p => [p]
+  | .simple e _ => [92, e]
+  | .uni a b c d _ => [92, 117, a, b, c, d]
+
+def Tok.val : Tok → Nat
+  | .plain p => p
+  | .simple _ v => v
+  | .uni _ _ _ _ v => v
+
+def Tok.OK : Tok → Prop
+  | .plain p => p ≠ 92 ∧ p ≠ 96
+  | .simple e v => e ∈ IRLexer.escapeChars ∧ e ≠ IRLexer.unicodeEscapeLetter ∧ lookupEscape e IRLexer.simpleEscapes = some v
+  | .uni a b c d v => (a ≠ 92 ∧ a ≠ 96) ∧ (b ≠ 92 ∧ b ≠ 96) ∧ (c ≠ 92 ∧ c ≠ 96) ∧ (d ≠ 92 ∧ d ≠ 96) ∧
+      ∀ X, hex4Val (a :: b :: c :: d :: X) = some (v, X)
+
+theorem quotedBody_tok (t : Tok) (ht : t.OK) (x : Nat) (X : List Nat) :
+    quotedBody 96 (t.text ++ x :: X) = (quotedBody 96 (x :: X)).map fun p => (t.text ++ p.1, p.2) := by
+  cases t with
+  | plain p => simp only [Tok.text, List.cons_append, List.nil_append]; exact quotedBody_plain p x X ht.2 ht.1
+  | simple e v => simp only [Tok.text, List.cons_append, List.nil_append]; rw [quotedBody_pair e _ ht.1]
+  | uni a b c d v =>
+    obtain ⟨ha, hb, hc, hd, _⟩ := ht
+    simp only [Tok.text, List.cons_append, List.nil_append]
+    rw [quotedBody_pair _ _ (by decide : 117 ∈ IRLexer.escapeChars), quotedBody_plain _ _ _ ha.2 ha.1,
+      quotedBody_plain _ _ _ hb.2 hb.1, quotedBody_plain _ _ _ hc.2 hc.1, quotedBody_plain _ _ _ hd.2 hd.1]
+    simp [Option.map_map, Function.comp_def]
+
+theorem quotedBody_toks (ts : List Tok) (hts : ∀ t ∈ ts, t.OK) (rest : List Nat) :
+    quotedBody 96 (ts.flatMap Tok.text ++ 96 :: rest) = some (ts.flatMap Tok.text, rest) := by
+  induction ts with
+  | nil => cases rest <;> simp [quotedBody]
+  | cons t ts ih =>
+    simp only [List.flatMap_cons, List.append_assoc]
+    cases hX : ts.flatMap Tok.text ++ 96 :: rest with
     | nil => simp at hX
     | cons x X =>
-      rw [quotedBody_char c (hs c (by simp)), ← hX, ih (fun d hd => hs d (by simp [hd]))]; rfl
+      rw [quotedBody_tok t (hts t (by simp)), ← hX, ih (fun u hu => hts u (by simp [hu]))]; rfl
 
-theorem unescapeString_char (c : Nat) (hc : EscOK c) (X : List Nat) (f : Nat) :
-    unescapeString (f + 1) (escBodyChar c ++ X) = (unescapeString f X).map (c :: ·) := by
-  unfold escBodyChar unicodeEscapeChar
-  split
-  · subst_vars; simp [replaceBacktick, unescapeString, IRLexer.unicodeEscapeLetter, lookupEscape, IRLexer.simpleEscapes]
-  split
-  · subst_vars; simp [replaceBacktick, unescapeString, IRLexer.unicodeEscapeLetter, lookupEscape, IRLexer.simpleEscapes]
-  split
-  · subst_vars; simp [replaceBacktick, unescapeString, IRLexer.unicodeEscapeLetter, lookupEscape, IRLexer.simpleEscapes]
-  split
-  · subst_vars; simp [replaceBacktick, unescapeString, IRLexer.unicodeEscapeLetter, lookupEscape, IRLexer.simpleEscapes]
-  split
-  · rename_i h1 h2 h3 h4 h5
-    simp only [Bool.or_eq_true, Bool.and_eq_true, decide_eq_true_eq] at h5
-    unfold EscOK at hc; omega
-  split
-  · rename_i h1 h2 h3 h4 h5 h6
-    by_cases h96 : c = 96
-    · subst h96
-      simp [replaceBacktick, unescapeString, IRLexer.unicodeEscapeLetter, lookupEscape, IRLexer.simpleEscapes]
-    · simp [replaceBacktick, h96, unescapeString, h4]
-  split
-  · rename_i h7
-    have hd : ∀ n, hexDigit (n % 16) ≠ 96 := fun n => (hexDigit_ne _ (Nat.mod_lt _ (by decide))).2.1
-    have hrb : replaceBacktick (92 :: 117 :: hex4 c) = 92 :: 117 :: hex4 c := by
-      simp [replaceBacktick, hex4, hd]
-    rw [hrb]
-    simp only [List.cons_append, unescapeString, IRLexer.unicodeEscapeLetter]
-    have hl : (hex4 c).length = 4 := rfl
-    simp [hl, hex4Val_hex4 c h7]
+theorem unescapeString_tok (t : Tok) (ht : t.OK) (X : List Nat) (f : Nat) :
+    unescapeString (f + 1) (t.text ++ X) = (unescapeString f X).map (t.val :: ·) := by
+  cases t with
+  | plain p => simp [Tok.text, Tok.val, unescapeString, ht.1]
+  | simple e v =>
+    obtain ⟨_, h2, h3⟩ := ht
+    simp [Tok.text, Tok.val, unescapeString, h2, h3]
+  | uni a b c d v =>
+    obtain ⟨_, _, _, _, h5⟩ := ht
+    simp only [Tok.text, Tok.val, List.cons_append, List.nil_append, unescapeString, IRLexer.unicodeEscapeLetter]
+    simp [h5 X]
     omega
-  · unfold EscOK at hc; omega
 
-theorem unescapeString_body (s : Str) (hs : ∀ c ∈ s, EscOK c) :
-    ∀ f, s.length + 1 ≤ f → unescapeString f (replaceBacktick (unicodeEscape s)) = some s := by
-  induction s with
+theorem unescapeString_toks (ts : List Tok) (hts : ∀ t ∈ ts, t.OK) :
+    ∀ f, ts.length + 1 ≤ f → unescapeString f (ts.flatMap Tok.text) = some (ts.map Tok.val) := by
+  induction ts with
   | nil => intro f hf; cases f with
     | zero => omega
-    | succ f => simp [unicodeEscape, replaceBacktick, unescapeString]
-  | cons c s ih =>
+    | succ f => simp [unescapeString]
+  | cons t ts ih =>
     intro f hf
     cases f with
     | zero => omega
     | succ f =>
-      rw [escBody_cons]
-      have := unescapeString_char c (hs c (by simp)) (replaceBacktick (unicodeEscape s)) f
-      rw [this, ih (fun d hd => hs d (by simp [hd])) f (by simp at hf; omega)]
+      simp only [List.flatMap_cons, List.map_cons]
+      rw [unescapeString_tok t (hts t (by simp)), ih (fun u hu => hts u (by simp [hu])) f (by simp at hf; omega)]
       rfl
 
-theorem length_le_body (s : Str) : s.length ≤ (replaceBacktick (unicodeEscape s)).length := by
-  induction s with
-  | nil => simp [unicodeEscape, replaceBacktick]
-  | cons c s ih =>
-    rw [escBody_cons]
-    have h1 : 1 ≤ (escBodyChar c).length := by
-      have h2 : ∀ x : Str, x.length ≤ (replaceBacktick x).length := by
-        intro x; induction x with
-        | nil => simp [replaceBacktick]
-        | cons d x ih => rw [replaceBacktick_cons]; split <;> simp <;> omega
-      have h3 : 1 ≤ (unicodeEscapeChar c).length := by
-        unfold unicodeEscapeChar; repeat' split
-        all_goals simp
-      exact Nat.le_trans h3 (h2 _)
-    simp; omega
+theorem toks_text_length (ts : List Tok) : ts.length ≤ (ts.flatMap Tok.text).length := by
+  induction ts with
+  | nil => simp
+  | cons t ts ih =>
+    have h1 : 1 ≤ t.text.length := by cases t <;> simp [Tok.text]
+    simp only [List.flatMap_cons, List.length_append, List.length_cons]
+    omega
 
-theorem body_ascii (s : Str) : ∀ b ∈ replaceBacktick (unicodeEscape s), b < 65536 := by
+/-- lexing a backticked literal whose body is a token sequence -/
+theorem quotedLiteral_toks (ts : List Tok) (hts : ∀ t ∈ ts, t.OK) (rest : List Nat) :
+    quotedLiteral 96 (96 :: (ts.flatMap Tok.text ++ 96 :: rest)) = some (ts.map Tok.val, rest) := by
+  have hq := quotedBody_toks ts hts rest
+  have hu := unescapeString_toks ts hts ((ts.flatMap Tok.text).length + 1) (by have := toks_text_length ts; omega)
+  generalize ts.flatMap Tok.text = body at hq hu
+  simp [quotedLiteral, skipJavaWs, javaSpace, hq, hu]
+
+/-! ## `escape_parsable`: tokens of one character -/
+
+def uniTok (v : Nat) : Tok :=
+  .uni (hexDigit (v / 4096 % 16)) (hexDigit (v / 256 % 16)) (hexDigit (v / 16 % 16)) (hexDigit (v % 16)) v
+
+theorem uniTok_text (v : Nat) : (uniTok v).text = 92 :: 117 :: hex4 v := rfl
+
+theorem uniTok_OK (v : Nat) (hv : v < 65536) : (uniTok v).OK := by
+  have hd : ∀ n, hexDigit (n % 16) ≠ 92 ∧ hexDigit (n % 16) ≠ 96 := fun n =>
+    ⟨(hexDigit_ne _ (Nat.mod_lt _ (by decide))).1, (hexDigit_ne _ (Nat.mod_lt _ (by decide))).2.1⟩
+  refine ⟨hd _, hd _, hd _, hd _, ?_⟩
+  intro X
+  have := hex4Val_hex4 v hv X
+  simpa [hex4] using this
+
+def parsableToks (c : Nat) : List Tok :=
+  if c = 92 then [.simple 92 92]
+  else if c = 9 then [.simple 116 9]
+  else if c = 10 then [.simple 110 10]
+  else if c = 13 then [.simple 114 13]
+  else if 32 ≤ c ∧ c < 127 then (if c = 96 then [.simple 96 96] else [.plain c])
+  else if c < 65536 then [uniTok c]
+  else [uniTok (55296 + (c - 65536) / 1024), uniTok (56320 + (c - 65536) % 1024)]
+
+theorem hex4_noBacktick' (c : Nat) : replaceBacktick (hex4 c) = hex4 c := hex4_noBacktick c
+
+theorem parsableToks_text (c : Nat) : (parsableToks c).flatMap Tok.text = escBodyChar c := by
+  unfold parsableToks escBodyChar parsableEscapeChar
+  by_cases h1 : c = 92
+  · subst h1; simp [Tok.text, replaceBacktick]
+  by_cases h2 : c = 9
+  · subst h2; simp [Tok.text, replaceBacktick]
+  by_cases h3 : c = 10
+  · subst h3; simp [Tok.text, replaceBacktick]
+  by_cases h4 : c = 13
+  · subst h4; simp [Tok.text, replaceBacktick]
+  by_cases h5 : 32 ≤ c ∧ c < 127
+  · by_cases h6 : c = 96
+    · subst h6; simp [Tok.text, replaceBacktick]
+    · simp [h1, h2, h3, h4, h5, h6, Tok.text, replaceBacktick]
+  by_cases h7 : c < 65536
+  · rw [if_neg h1, if_neg h2, if_neg h3, if_neg h4, if_neg h5, if_pos h7, if_neg h1, if_neg h2, if_neg h3, if_neg h4,
+      if_neg h5, if_pos h7]
+    rw [replaceBacktick_cons, replaceBacktick_cons, hex4_noBacktick]
+    simp [uniTok_text]
+  · rw [if_neg h1, if_neg h2, if_neg h3, if_neg h4, if_neg h5, if_neg h7, if_neg h1, if_neg h2, if_neg h3, if_neg h4,
+      if_neg h5, if_neg h7]
+    rw [replaceBacktick_cons, replaceBacktick_cons, replaceBacktick_append, replaceBacktick_cons, replaceBacktick_cons,
+      hex4_noBacktick, hex4_noBacktick]
+    simp [uniTok_text]
+
+theorem parsableToks_OK (c : Nat) (hc : c < 1114112) : ∀ t ∈ parsableToks c, t.OK := by
+  unfold parsableToks
+  intro t ht
+  by_cases h1 : c = 92
+  · subst h1; simp at ht; subst ht; exact ⟨by decide, by decide, by decide⟩
+  by_cases h2 : c = 9
+  · subst h2; simp at ht; subst ht; exact ⟨by decide, by decide, by decide⟩
+  by_cases h3 : c = 10
+  · subst h3; simp at ht; subst ht; exact ⟨by decide, by decide, by decide⟩
+  by_cases h4 : c = 13
+  · subst h4; simp at ht; subst ht; exact ⟨by decide, by decide, by decide⟩
+  by_cases h5 : 32 ≤ c ∧ c < 127
+  · by_cases h6 : c = 96
+    · subst h6; simp at ht; subst ht; exact ⟨by decide, by decide, by decide⟩
+    · simp [h1, h2, h3, h4, h5, h6] at ht; subst ht; exact ⟨h1, h6⟩
+  by_cases h7 : c < 65536
+  · simp [h1, h2, h3, h4, h5, h7] at ht; subst ht; exact uniTok_OK c h7
+  · simp [h1, h2, h3, h4, h5, h7] at ht
+    rcases ht with rfl | rfl
+    · exact uniTok_OK _ (by omega)
+    · exact uniTok_OK _ (by omega)
+
+theorem utf16_single_small (c : Nat) (h : c < 65536) : utf16 [c] = [c] := by
+  simp only [utf16]; rw [if_neg (by omega)]
+
+theorem utf16_single_big (c : Nat) (h : 65536 ≤ c) :
+    utf16 [c] = [55296 + (c - 65536) / 1024, 56320 + (c - 65536) % 1024] := by
+  simp only [utf16]; rw [if_pos h]
+
+theorem parsableToks_astral (c : Nat) (hb : ¬ c < 65536) :
+    parsableToks c = [uniTok (55296 + (c - 65536) / 1024), uniTok (56320 + (c - 65536) % 1024)] := by
+  unfold parsableToks
+  have h1 : ¬ c = 92 := by omega
+  have h2 : ¬ c = 9 := by omega
+  have h3 : ¬ c = 10 := by omega
+  have h4 : ¬ c = 13 := by omega
+  have h5 : ¬ (32 ≤ c ∧ c < 127) := by omega
+  rw [if_neg h1, if_neg h2, if_neg h3, if_neg h4, if_neg h5, if_neg hb]
+
+theorem map_val_pair (a b : Nat) : [uniTok a, uniTok b].map Tok.val = [a, b] := rfl
+
+theorem parsableToks_val (c : Nat) : (parsableToks c).map Tok.val = utf16 [c] := by
+  by_cases hb : c < 65536
+  · rw [utf16_single_small c hb]
+    unfold parsableToks
+    by_cases h1 : c = 92
+    · simp [h1, Tok.val]
+    by_cases h2 : c = 9
+    · simp [h2, Tok.val]
+    by_cases h3 : c = 10
+    · simp [h3, Tok.val]
+    by_cases h4 : c = 13
+    · simp [h4, Tok.val]
+    by_cases h5 : 32 ≤ c ∧ c < 127
+    · by_cases h6 : c = 96
+      · simp [h6, Tok.val]
+      · simp [h1, h2, h3, h4, h5, h6, Tok.val]
+    · simp [h1, h2, h3, h4, h5, hb, Tok.val, uniTok]
+  · rw [utf16_single_big c (by omega), parsableToks_astral c hb]
+    exact map_val_pair _ _
+
+theorem utf16_cons (c : Nat) (s : Str) : utf16 (c :: s) = utf16 [c] ++ utf16 s := by
+  simp only [utf16]; split <;> simp
+
+/-- the body `escape_parsable` writes is a sequence of admissible tokens whose values are the UTF-16 code units of the name -/
+theorem parsable_body_toks (s : Str) (hs : ∀ c ∈ s, c < 1114112) :
+    ∃ ts : List Tok, (∀ t ∈ ts, t.OK) ∧ ts.flatMap Tok.text = replaceBacktick (parsableEscape s) ∧ ts.map Tok.val = utf16 s := by
+  induction s with
+  | nil => exact ⟨[], by simp, by simp [parsableEscape, replaceBacktick], by simp [utf16]⟩
+  | cons c s ih =>
+    obtain ⟨ts, h1, h2, h3⟩ := ih (fun d hd => hs d (by simp [hd]))
+    refine ⟨parsableToks c ++ ts, ?_, ?_, ?_⟩
+    · intro t ht
+      rcases List.mem_append.1 ht with ht | ht
+      · exact parsableToks_OK c (hs c (by simp)) t ht
+      · exact h1 t ht
+    · rw [List.flatMap_append, parsableToks_text, h2, escBody_cons]
+    · rw [List.map_append, parsableToks_val, h3, utf16_cons c s]
+
+theorem body_ascii (s : Str) : ∀ b ∈ replaceBacktick (parsableEscape s), b < 65536 := by
   intro b hb
   simp only [replaceBacktick, List.mem_flatMap] at hb
   obtain ⟨c, hc, hb⟩ := hb
-  have := unicodeEscape_ascii s c hc
+  have := parsableEscape_ascii s c hc
   split at hb <;> simp at hb <;> omega
+
+/-! ## `escape_id` / `escape_str(…, backticked=True)`: tokens of one character -/
+
+theorem upperHexAux_small (f n : Nat) (acc : Str) (h : n < 16) : upperHexAux (f + 1) n acc = hexDigitU n :: acc := by
+  simp [upperHexAux, h]
+
+theorem upperHexAux_step (f n : Nat) (acc : Str) (h : ¬ n < 16) :
+    upperHexAux (f + 1) n acc = upperHexAux f (n / 16) (hexDigitU (n % 16) :: acc) := by
+  simp [upperHexAux, h]
+
+/-- `"{0:04X}".format(v)` for a UTF-16 code unit: exactly four upper-case digits -/
+theorem upperHex4_eq (v : Nat) (h : v < 65536) :
+    upperHex4 v = [hexDigitU (v / 4096 % 16), hexDigitU (v / 256 % 16), hexDigitU (v / 16 % 16), hexDigitU (v % 16)] := by
+  unfold upperHex4
+  by_cases h1 : v < 16
+  · have e1 : v / 4096 % 16 = 0 := by omega
+    have e2 : v / 256 % 16 = 0 := by omega
+    have e3 : v / 16 % 16 = 0 := by omega
+    have e4 : v % 16 = v := by omega
+    rw [upperHexAux_small v v [] h1, e1, e2, e3, e4]
+    rfl
+  by_cases h2 : v < 256
+  · obtain ⟨f, rfl⟩ : ∃ f, v = f + 1 := ⟨v - 1, by omega⟩
+    have e1 : (f + 1) / 4096 % 16 = 0 := by omega
+    have e2 : (f + 1) / 256 % 16 = 0 := by omega
+    have e3 : (f + 1) / 16 % 16 = (f + 1) / 16 := by omega
+    rw [upperHexAux_step _ _ _ h1, upperHexAux_small f _ _ (by omega), e1, e2, e3]
+    rfl
+  by_cases h3 : v < 4096
+  · obtain ⟨f, rfl⟩ : ∃ f, v = f + 2 := ⟨v - 2, by omega⟩
+    have e1 : (f + 2) / 4096 % 16 = 0 := by omega
+    have e2 : (f + 2) / 256 % 16 = (f + 2) / 16 / 16 := by omega
+    have e3 : (f + 2) / 16 % 16 = (f + 2) / 16 % 16 := rfl
+    rw [upperHexAux_step _ _ _ h1, upperHexAux_step (f + 1) _ _ (by omega), upperHexAux_small f _ _ (by omega), e1, e2]
+    rfl
+  · obtain ⟨f, rfl⟩ : ∃ f, v = f + 3 := ⟨v - 3, by omega⟩
+    have e1 : (f + 3) / 4096 % 16 = (f + 3) / 16 / 16 / 16 := by omega
+    have e2 : (f + 3) / 256 % 16 = (f + 3) / 16 / 16 % 16 := by omega
+    rw [upperHexAux_step _ _ _ h1, upperHexAux_step (f + 2) _ _ (by omega), upperHexAux_step (f + 1) _ _ (by omega),
+      upperHexAux_small f _ _ (by omega), e1, e2]
+    rfl
+
+theorem hexVal_hexDigitU (d : Nat) (h : d < 16) : hexVal (hexDigitU d) = some d := by
+  have : ∀ d, d < 16 → hexVal (hexDigitU d) = some d := by decide
+  exact this d h
+
+theorem hexDigitU_ne (d : Nat) (h : d < 16) : hexDigitU d ≠ 92 ∧ hexDigitU d ≠ 96 := by
+  unfold hexDigitU; split <;> omega
+
+def uniTokU (v : Nat) : Tok :=
+  .uni (hexDigitU (v / 4096 % 16)) (hexDigitU (v / 256 % 16)) (hexDigitU (v / 16 % 16)) (hexDigitU (v % 16)) v
+
+theorem uniTokU_text (v : Nat) (hv : v < 65536) : (uniTokU v).text = 92 :: 117 :: upperHex4 v := by
+  rw [upperHex4_eq v hv]; rfl
+
+theorem uniTokU_OK (v : Nat) (hv : v < 65536) : (uniTokU v).OK := by
+  have hd : ∀ n, hexDigitU (n % 16) ≠ 92 ∧ hexDigitU (n % 16) ≠ 96 := fun n => hexDigitU_ne _ (Nat.mod_lt _ (by decide))
+  have hv' : ∀ n, hexVal (hexDigitU (n % 16)) = some (n % 16) := fun n => hexVal_hexDigitU _ (Nat.mod_lt _ (by decide))
+  refine ⟨hd _, hd _, hd _, hd _, ?_⟩
+  intro X
+  simp only [hex4Val, hv']
+  congr 2; omega
+
+theorem map_val_pairU (a b : Nat) : [uniTokU a, uniTokU b].map Tok.val = [a, b] := rfl
+
+def idToks (c : Nat) : List Tok :=
+  if c > 65535 then [uniTokU (55296 + (c - 65536) / 1024), uniTokU (56320 + (c - 65536) % 1024)]
+  else if c > 127 then [uniTokU c]
+  else if c < 32 then
+    if c = 8 then [.simple 98 8] else if c = 10 then [.simple 110 10] else if c = 9 then [.simple 116 9]
+    else if c = 12 then [.simple 102 12] else if c = 13 then [.simple 114 13]
+    else [uniTokU c]
+  else if c = 34 then [.plain 34]
+  else if c = 96 then [.simple 96 96]
+  else if c = 92 then [.simple 92 92]
+  else [.plain c]
+
+theorem simpleTok_OK (e v : Nat) (h1 : e ∈ IRLexer.escapeChars) (h2 : e ≠ IRLexer.unicodeEscapeLetter)
+    (h3 : lookupEscape e IRLexer.simpleEscapes = some v) : ∀ t ∈ [Tok.simple e v], t.OK := by
+  intro t ht; simp only [List.mem_singleton] at ht; subst ht; exact ⟨h1, h2, h3⟩
+
+theorem uniTokU_text_small (v : Nat) : ∀ b ∈ (uniTokU v).text, b < 128 := by
+  have hd : ∀ n, hexDigitU (n % 16) < 128 := by
+    intro n; unfold hexDigitU; split <;> omega
+  intro b hb
+  simp only [uniTokU, Tok.text, List.mem_cons, List.not_mem_nil, or_false] at hb
+  rcases hb with rfl | rfl | rfl | rfl | rfl | rfl
+  · omega
+  · omega
+  · exact hd _
+  · exact hd _
+  · exact hd _
+  · exact hd _
+
+theorem text_pairU (a b : Nat) (ha : a < 65536) (hb : b < 65536) :
+    [uniTokU a, uniTokU b].flatMap Tok.text = 92 :: 117 :: (upperHex4 a ++ 92 :: 117 :: upperHex4 b) := by
+  simp only [List.flatMap_cons, List.flatMap_nil, List.append_nil]
+  rw [uniTokU_text a ha, uniTokU_text b hb]
+  simp
+
+/-- the per-character facts: text, admissibility, values, and every character of the text is ASCII -/
+theorem idToks_spec (c : Nat) (hc : c < 1114112) :
+    (idToks c).flatMap Tok.text = escapeStrChar c ∧ (∀ t ∈ idToks c, t.OK) ∧ (idToks c).map Tok.val = utf16 [c] ∧
+      ∀ t ∈ idToks c, ∀ b ∈ t.text, b < 128 := by
+  unfold idToks escapeStrChar
+  by_cases h0 : c > 65535
+  · rw [if_pos h0, if_pos h0, utf16_single_big c (by omega)]
+    refine ⟨?_, ?_, map_val_pairU _ _, ?_⟩
+    · exact text_pairU _ _ (by omega) (by omega)
+    · intro t ht
+      simp only [List.mem_cons, List.not_mem_nil, or_false] at ht
+      rcases ht with rfl | rfl
+      · exact uniTokU_OK _ (by omega)
+      · exact uniTokU_OK _ (by omega)
+    · intro t ht
+      simp only [List.mem_cons, List.not_mem_nil, or_false] at ht
+      rcases ht with rfl | rfl <;> exact uniTokU_text_small _
+  rw [if_neg h0, if_neg h0, utf16_single_small c (by omega)]
+  have uni1 : [uniTokU c].flatMap Tok.text = 92 :: 117 :: upperHex4 c ∧ (∀ t ∈ [uniTokU c], t.OK) ∧
+      [uniTokU c].map Tok.val = [c] ∧ ∀ t ∈ [uniTokU c], ∀ b ∈ t.text, b < 128 := by
+    refine ⟨by simp [uniTokU_text c (by omega)], ?_, rfl, ?_⟩
+    · intro t ht; simp only [List.mem_singleton] at ht; subst ht; exact uniTokU_OK c (by omega)
+    · intro t ht; simp only [List.mem_singleton] at ht; subst ht; exact uniTokU_text_small c
+  have simp1 : ∀ e v, e < 128 → v = c → e ∈ IRLexer.escapeChars → e ≠ IRLexer.unicodeEscapeLetter →
+      lookupEscape e IRLexer.simpleEscapes = some v →
+      [Tok.simple e v].flatMap Tok.text = [92, e] ∧ (∀ t ∈ [Tok.simple e v], t.OK) ∧ [Tok.simple e v].map Tok.val = [c] ∧
+        ∀ t ∈ [Tok.simple e v], ∀ b ∈ t.text, b < 128 := by
+    intro e v he hv h1 h2 h3
+    refine ⟨rfl, simpleTok_OK e v h1 h2 h3, by simp [Tok.val, hv], ?_⟩
+    intro t ht b hb; simp only [List.mem_singleton] at ht; subst ht
+    simp only [Tok.text, List.mem_cons, List.not_mem_nil, or_false] at hb
+    rcases hb with rfl | rfl <;> omega
+  have plain1 : c < 128 → c ≠ 92 → c ≠ 96 → [Tok.plain c].flatMap Tok.text = [c] ∧ (∀ t ∈ [Tok.plain c], t.OK) ∧
+      [Tok.plain c].map Tok.val = [c] ∧ ∀ t ∈ [Tok.plain c], ∀ b ∈ t.text, b < 128 := by
+    intro h1 h2 h3
+    refine ⟨rfl, ?_, rfl, ?_⟩
+    · intro t ht; simp only [List.mem_singleton] at ht; subst ht; exact ⟨h2, h3⟩
+    · intro t ht b hb; simp only [List.mem_singleton] at ht; subst ht
+      simp only [Tok.text, List.mem_singleton] at hb; omega
+  by_cases h1 : c > 127
+  · rw [if_pos h1, if_pos h1]; exact uni1
+  rw [if_neg h1, if_neg h1]
+  by_cases h2 : c < 32
+  · rw [if_pos h2, if_pos h2]
+    by_cases a1 : c = 8
+    · rw [if_pos a1, if_pos a1]; exact simp1 98 8 (by omega) a1.symm (by decide) (by decide) (by decide)
+    rw [if_neg a1, if_neg a1]
+    by_cases a2 : c = 10
+    · rw [if_pos a2, if_pos a2]; exact simp1 110 10 (by omega) a2.symm (by decide) (by decide) (by decide)
+    rw [if_neg a2, if_neg a2]
+    by_cases a3 : c = 9
+    · rw [if_pos a3, if_pos a3]; exact simp1 116 9 (by omega) a3.symm (by decide) (by decide) (by decide)
+    rw [if_neg a3, if_neg a3]
+    by_cases a4 : c = 12
+    · rw [if_pos a4, if_pos a4]; exact simp1 102 12 (by omega) a4.symm (by decide) (by decide) (by decide)
+    rw [if_neg a4, if_neg a4]
+    by_cases a5 : c = 13
+    · rw [if_pos a5, if_pos a5]; exact simp1 114 13 (by omega) a5.symm (by decide) (by decide) (by decide)
+    rw [if_neg a5, if_neg a5]; exact uni1
+  rw [if_neg h2, if_neg h2]
+  by_cases b1 : c = 34
+  · rw [if_pos b1, if_pos b1]
+    have := plain1 (by omega) (by omega) (by omega)
+    rw [b1] at this; rw [b1]; exact this
+  rw [if_neg b1, if_neg b1]
+  by_cases b2 : c = 96
+  · rw [if_pos b2, if_pos b2]; exact simp1 96 96 (by omega) b2.symm (by decide) (by decide) (by decide)
+  rw [if_neg b2, if_neg b2]
+  by_cases b3 : c = 92
+  · rw [if_pos b3, if_pos b3]; exact simp1 92 92 (by omega) b3.symm (by decide) (by decide) (by decide)
+  rw [if_neg b3, if_neg b3]
+  exact plain1 (by omega) b3 b2
+
+/-- the body `escape_id` writes is a sequence of admissible tokens whose values are the UTF-16 code units of the name -/
+theorem id_body_toks (s : Str) (hs : ∀ c ∈ s, c < 1114112) :
+    ∃ ts : List Tok, (∀ t ∈ ts, t.OK) ∧ ts.flatMap Tok.text = s.flatMap escapeStrChar ∧ ts.map Tok.val = utf16 s := by
+  induction s with
+  | nil => exact ⟨[], by simp, by simp, by simp [utf16]⟩
+  | cons c s ih =>
+    obtain ⟨ts, h1, h2, h3⟩ := ih (fun d hd => hs d (by simp [hd]))
+    obtain ⟨g1, g2, g3, _⟩ := idToks_spec c (hs c (by simp))
+    refine ⟨idToks c ++ ts, ?_, ?_, ?_⟩
+    · intro t ht
+      rcases List.mem_append.1 ht with ht | ht
+      · exact g2 t ht
+      · exact h1 t ht
+    · rw [List.flatMap_append, g1, h2]; simp
+    · rw [List.map_append, g3, h3, utf16_cons c s]
+
+theorem escapeStrChar_small (c : Nat) (hc : c < 1114112) : ∀ b ∈ escapeStrChar c, b < 65536 := by
+  intro b hb
+  obtain ⟨g1, _, _, g4⟩ := idToks_spec c hc
+  rw [← g1] at hb
+  simp only [List.mem_flatMap] at hb
+  obtain ⟨t, ht, hb⟩ := hb
+  have := g4 t ht b hb
+  omega
 
 variable (jc : JavaClasses)
 
